@@ -146,6 +146,7 @@ func loggingSink(c *Ctx) func(ci ssa.CallInstruction) (string, []int) {
 }
 
 func runC11(c *Ctx, r *Report) {
+	importFoundation(c, r, "C11", "platform-options")
 	r.Rule("C11/log-args-untransformed", "the logging methods hand their arguments to fmt as they are (no reflection, no dereferencing)", 3)
 	checkLogArgsUntransformed(c, r, "C11/log-args-untransformed")
 	r.Rule("C11/password-prompt-anchored", "the built-in pattern that decides when the login password is typed matches only where the prompt ends a line", 1)
